@@ -31,12 +31,15 @@ def nextOK (t : Tok) (c : Char) : Bool :=
     else match o with
       | .lt => c != '=' && c != '>' && c != '*'
       | .gt => c != '='
-      | .times => c != '*' && c != ')'
+      | .times | .exp => c != '*' && c != ')'
       | .minus => c != '-'
+      | .concat => c != '|'
+      | .instEq | .instNe => c != '=' && c != '<'
       | _ => true
   | .colon => c != '=' && c != '<'
   | .bar => c != '|'
   | .lp => c != '*'
+  | .allIn => c != '*' && c != ')'
   | _ => true
 
 def NoGlue (t : Tok) : List Char → Prop
